@@ -97,9 +97,15 @@ func (m *MemoryTableSource) encodeRow(row map[string]any) []any {
 // []any tuple.
 func encodeKey(key any) string {
 	if vals, ok := key.([]any); ok {
+		if len(vals) == 1 {
+			return encodeOne(vals[0])
+		}
+		// Every component carries its length, so a component that itself
+		// contains the separator cannot be read as two components.
 		parts := make([]string, len(vals))
 		for i, v := range vals {
-			parts[i] = encodeOne(v)
+			p := encodeOne(v)
+			parts[i] = strconv.Itoa(len(p)) + ":" + p
 		}
 		return strings.Join(parts, "\x1f")
 	}
@@ -112,6 +118,31 @@ func encodeOne(v any) string {
 	}
 	// 数值按 SQL 语义归一：1(int)/1.0(float64)/1(uint) 视作相等。否则 JSON 流解码
 	// 出的 float64 键与类型化维度表的 int 键永不匹配，INNER JOIN 静默丢行。
+	// Integers are written exactly: through float64, distinct keys beyond 2^53
+	// (…992 and …993) would share one encoding. A whole float64 is written the
+	// same way, so 1, 1.0 and uint(1) still match.
+	switch x := v.(type) {
+	case int:
+		return "n:" + strconv.FormatInt(int64(x), 10)
+	case int64:
+		return "n:" + strconv.FormatInt(x, 10)
+	case int32:
+		return "n:" + strconv.FormatInt(int64(x), 10)
+	case int16:
+		return "n:" + strconv.FormatInt(int64(x), 10)
+	case int8:
+		return "n:" + strconv.FormatInt(int64(x), 10)
+	case uint:
+		return "n:" + strconv.FormatUint(uint64(x), 10)
+	case uint64:
+		return "n:" + strconv.FormatUint(x, 10)
+	case uint32:
+		return "n:" + strconv.FormatUint(uint64(x), 10)
+	case uint16:
+		return "n:" + strconv.FormatUint(uint64(x), 10)
+	case uint8:
+		return "n:" + strconv.FormatUint(uint64(x), 10)
+	}
 	if f, ok := numericKeyFloat(v); ok {
 		if f == 0 {
 			f = 0 // 归一 -0.0 → 0
